@@ -12,7 +12,7 @@ C07 driver. Case lines (after the leading `C07` token):
 `raw`: where the crdt configuration comes from: sources separated by `/`: `D` Default(), `L<list>` LoadJSON of a
 file with that trusted_peers, `E<list>` ApplyEnvVars with CLUSTER_CRDT_TRUSTEDPEERS=<list>, `A` ApplyEnvVars with
 the variable unset; a bare `<list>` is `L<list>`. `<list>`: comma separated, `*` or a peer index, `-` for none.
-`ops`: `T<n>`/`D<n>` calls, `-` for none. `overrides`: `Name:<int>` or `Name:-` (entry deleted).
+`ops`: `T<n>`/`D<n>` calls, `H<n>`: peer n called the open endpoints remotely (join handshake), `-` for none. `overrides`: `Name:<int>` or `Name:-` (entry deleted).
 `msgs`: `<signer>:<pin>:<+|->`.
 -/
 namespace CV.C07
@@ -34,6 +34,7 @@ def parseRaw (s : String) : Option (List Source) := (s.splitOn "/").mapM parseSo
 def parseOp (s : String) : Option TOp :=
   if s.startsWith "T" then (s.drop 1).toNat?.map .trust
   else if s.startsWith "D" then (s.drop 1).toNat?.map .distrust
+  else if s.startsWith "H" then (s.drop 1).toNat?.map .handshake
   else none
 
 def parseOv (s : String) : Option (String × Option Int) :=
